@@ -50,7 +50,7 @@ def parseMembers (s : String) : Option (List (Nat × Nat)) :=
   (parseMembersDc s).map (·.map (fun m => (m.1, m.2.1)))
 
 /-- The data-centre map `watch_membership_changes` hands to the selector (`Selector.dcLayout`). -/
-def layoutOf (ms : List (Nat × Nat × Nat)) : List (Nat × List Nat) := Selector.dcLayout ms
+def layoutOf (self : Nat) (ms : List (Nat × Nat × Nat)) : List (Nat × List Nat) := Selector.dcLayout self ms
 
 def fmtNats (l : List Nat) : String := if l.isEmpty then "-" else ",".intercalate (l.map toString)
 
@@ -137,7 +137,7 @@ def step (st : State) (toks : List String) : State × String :=
       let snap := ms.map (fun m => (m.1, m.2.1))
       -- the node's own watcher (disconnects, selector update) and then the publication of the processed snapshot
       let (_, w') := Membership.watchStep st.watcher snap
-      ({ st with watcher := w', chan := st.chan.send snap, snap := snap, actor := Selector.setNodes st.actor (layoutOf ms) },
+      ({ st with watcher := w', chan := st.chan.send snap, snap := snap, actor := Selector.setNodes st.actor (layoutOf st.watcher.self ms) },
         s!"published {fmtMembers (sortById snap)}")
     | none => (st, "bad-op")
   | ["mem-sub"] => ({ st with subs := st.subs ++ [{}] }, s!"sub {st.subs.length}")
